@@ -4,6 +4,7 @@ pub mod c05;
 pub mod c14;
 pub mod c16;
 pub mod c15;
+pub mod c17;
 
 pub fn run(args: &Args) -> i32 {
     match args.prop.as_str() {
@@ -12,6 +13,7 @@ pub fn run(args: &Args) -> i32 {
         "smoke" => smoke::run(args),
         "C16" => c16::run(args),
         "C15" => c15::run(args),
+        "C17" => c17::run(args),
         other => {
             eprintln!("no driver for property {other}");
             2
